@@ -45,7 +45,7 @@ def _tier(tier):
         return dict(ext=3, periods=2, thorough=False, script_seeds=3, record_seeds=50,
                     attempt_runs=[("all", KINDS, "{1, 2, 3}", "{1, 2, 3}", "{0, 1, 2}", "{1, 2, 3}")])
     others = [k for k in KINDS if k != "maxclear"]
-    return dict(ext=5, periods=4, thorough=True, script_seeds=4, record_seeds=250,
+    return dict(ext=6, periods=6, thorough=True, script_seeds=6, record_seeds=500,
                 attempt_runs=[("loops", others, "{1, 2, 3, 4, 5, 6}", "{1, 2, 3, 4, 5}", "{0}", "{0, 1, 2, 3}"),
                               ("maxclear", ["maxclear"], "{1, 2, 3, 4}", "{1}", "{0, 1, 2, 3}", "{1, 2, 3}")])
 
